@@ -338,10 +338,18 @@ func c13Messages(e *Env) {
 				for d < len(rb) && d < len(lb) && rb[d] == lb[d] {
 					d++
 				}
+				// ... or if the two renderings re-synchronise once one fixed-width text token is given another width:
+				// everything before the field equal, everything after it equal, only the field W+delta bytes wide
+				delta := len(lb) - len(rb)
 				for ti, tk := range toks {
 					last := ti == len(toks)-1
-					if tk.Cat == "text" && tk.W > 0 && isFixSite(e, tk.Site) && ((d >= tk.Off && d < tk.Off+tk.W) || (d == tk.Off+tk.W && (last || toks[ti+1].Off > d || d == len(rb)))) {
-						r.Violate("C13/message-field-width/"+t.QName, "C13/message-field-width/"+t.QName, map[string]any{"type": t.QName, "case": ci, "field": tk.Path, "pinned_width": tk.W, "library_bytes_total": len(lb), "model_bytes_total": len(rb), "first_difference_at": d, "library_from_field_start": val.Hex(lb[min(tk.Off, len(lb)):], 80), "model_field": val.Hex(rb[tk.Off:tk.Off+tk.W], 80), "value": val.Summary(v, 300)})
+					if tk.Cat != "text" || tk.W == 0 || !isFixSite(e, tk.Site) {
+						continue
+					}
+					inside := (d >= tk.Off && d < tk.Off+tk.W) || (d == tk.Off+tk.W && (last || toks[ti+1].Off > d || d == len(rb)))
+					resync := tk.W+delta >= 0 && tk.Off+tk.W+delta <= len(lb) && bytes.Equal(lb[:tk.Off], rb[:tk.Off]) && bytes.Equal(lb[tk.Off+tk.W+delta:], rb[tk.Off+tk.W:])
+					if inside || resync {
+						r.Violate("C13/message-field-width/"+t.QName, "C13/message-field-width/"+t.QName, map[string]any{"type": t.QName, "case": ci, "field": tk.Path, "pinned_width": tk.W, "emitted_width_if_resynchronised": tk.W + delta, "library_bytes_total": len(lb), "model_bytes_total": len(rb), "first_difference_at": d, "library_from_field_start": val.Hex(lb[min(tk.Off, len(lb)):], 80), "model_field": val.Hex(rb[tk.Off:tk.Off+tk.W], 80), "value": val.Summary(v, 300)})
 						break
 					}
 				}
